@@ -86,8 +86,30 @@ CHECKS.update({
         "design_ref": "DESIGN.md 2/C08",
     },
 })
+CHECKS.update({
+    "C10": {
+        "text": "parse_svg_path on buffers whose characters are z3 Int code points: every buffer of length <= 3 (quick) / 4 (thorough) over a 40-symbol alphabet, plus token templates (concrete command letters and separators, symbolic number strings) and printing round-trips; the module's own regexes are re-implemented with Python's backtracking semantics over symbolic characters from their .pattern; oracle = recursive-descent recogniser of the SVG 1.1 BNF on the same buffer; per path an SMT validity query equates the parsed arguments.",
+        "note": "float()/int() of a token modelled by positional arithmetic; buffers longer than the bounds and characters outside the alphabet are outside; SVG 1.1 BNF is the reference.",
+        "design_ref": "DESIGN.md 2/C10",
+    },
+    "C14": {
+        "text": "Two conversions in one symbolic path, D and N(D), N inserting a noise item (comment, PI, title/desc/metadata, foreign element/attribute, id-less symbol, attribute-less g wrapper, whitespace, XML declaration) at tree positions of 14 base templates; outputs equal after canonical relabelling of gradient ids / sorting of defs, numbers provably equal.",
+        "note": _PIPE_NOTE,
+        "design_ref": "DESIGN.md 2/C14",
+    },
+    "C15": {
+        "text": "Every public SVG operation (27, in place and copying) applied from each cache state class (fresh; cache populated by a query; cache dirty after each of 9 in-place shape edits) on documents with symbolic numbers: result equals (canonical XML, numbers provably equal) the result after serialise+reparse of a twin object with the same history; copies leave the receiver's serialisation unchanged; in-place returns the receiver.",
+        "note": _PIPE_NOTE.replace("round is the identity in this harness; ", "") + " The quantifier over histories is covered by the state-class argument (one step from every class), argued not proved; the solver contributes universality over the numbers and numeric forks.",
+        "design_ref": "DESIGN.md 2/C15",
+    },
+    "C16": {
+        "text": "Set iteration order as an explorer-chosen input (modules re-loaded inside the explored function with order-aware sets, one iteration event permuted at a time), baseline and permuted conversion inside one symbolic path on templates with symbolic numbers: same structure and provably equal numbers (SMT validity); plus convert(B) after convert(A) in one module instance vs a fresh one for all ordered pairs of 6 documents. Refutations replayed across PYTHONHASHSEED values / processes on the real package.",
+        "note": "orders are enumerated by the explorer (the SMT part is the equality of the numbers across orders); interactions between two permuted sets not explored; nondeterminism inside lxml/Skia and OS effects outside.",
+        "design_ref": "DESIGN.md 2/C16",
+    },
+})
 NOT_APPLICABLE = {
     "C17": "termination/time-bound over cyclic reference graphs and libxml2 entity loading: no numeric or byte-level input to make symbolic, non-termination is not an assertion a bounded symbolic path can refute (budget exhausted = inconclusive); enumerating reference graphs under a watchdog would be a different technique family (DESIGN.md section 3)",
 }
-for _p in ["C10","C14","C15","C16"]:
+for _p in []:
     NOT_APPLICABLE.setdefault(_p, PENDING)
